@@ -170,7 +170,7 @@ pub fn run(rep: &mut Report, thorough: bool) {
             let knobs = OptKnobs::from_bits(bits, &mut rng);
             let o1 = scen::random_opts(&mut rng, &sc, &knobs);
             let len = rng.range(2, 5) as usize;
-            let shape = h % 5; // 0: same options; 1: blamed thread changes; 2: principal address unset later; 3: crash context removed later; 4: target swapped
+            let shape = h % 6; // 5: every request is preceded by a failed one; 0: same options; 1: blamed thread changes; 2: principal address unset later; 3: crash context removed later; 4: target swapped
             let _g = dump::DUMP_LOCK.lock().unwrap_or_else(|e| e.into_inner());
             let (mut w, _guard) = dump::configure(&o1);
             let mut compared = 0;
@@ -202,6 +202,22 @@ pub fn run(rep: &mut Report, thorough: bool) {
                     w.principal_mapping_address = ok.principal.map(|p| p as usize);
                     w.crash_context = ok.crash.as_ref().map(|c| dump::build_crash_context(c, ok.pid));
                     w.app_memory = ok.app_memory.iter().map(|(p, l)| minidump_writer::app_memory::AppMemory { ptr: *p as usize, length: *l as usize }).collect();
+                }
+                // some requests FAIL part-way (destination I/O error): what they recorded must not
+                // leak into the next request either
+                if shape == 5 || (k + 1 < len && rng.chance(1, 6)) {
+                    let cur = if ok.pid == sc.target.pid { &sc.target } else { &sc2.as_ref().unwrap().target };
+                    cur.settle();
+                    let mut df = Dest::plain();
+                    let at = rng.range(3, 70) as usize;
+                    df.set_fault(at, if rng.chance(1, 2) { crate::dest::Fault::Error } else { crate::dest::Fault::PartialThenError });
+                    let r = dump::dump_with(&mut w, &mut df);
+                    history.push(format!("failed request (destination error at call {at}) -> {}", match &r { Outcome::Ok(_) => "Ok", Outcome::Err(_) => "Err", Outcome::Panic { .. } => "panic" }));
+                    rep.count("failed_requests_in_histories", matches!(r, Outcome::Err(_)) as u64);
+                    if let Outcome::Panic { message, location } = r {
+                        rep.violation(&format!("C19 panic at {location}"), json!({"history": history, "panic": message}));
+                        break;
+                    }
                 }
                 history.push(format!("dump#{k} [{}]", ok.describe()));
                 let cur = if ok.pid == sc.target.pid { &sc.target } else { &sc2.as_ref().unwrap().target };
